@@ -257,6 +257,9 @@ func (s *vC11Stream) Read(b []byte) (int, error) {
 	for _, f := range s.frames {
 		if f.consumedSeq == 0 && f.endOff <= s.consumed {
 			f.consumedSeq = hs.seq
+			if f.garbage {
+				continue // no reply: the exchange stays outstanding until the sender resets the stream
+			}
 			for _, w := range s.writes {
 				if w.expects && w.pos == f.ansPos && w.done == 0 {
 					w.done = hs.seq
